@@ -10,7 +10,7 @@ import PromModel.Tsdb.ChunkXor
   of its header, layout and stored samples (recoding re-appends every sample to a fresh chunk).
   Arithmetic is over `Int`/`Nat` without int64 wrap-around (timestamps, counts and bucket values are far
   inside ±2^61 in every generated case; the round-trip theorem states the range it needs).
-  Float flavour (`float_histogram.go`) is not modelled here.
+  Float flavour (`float_histogram.go`): encoder only (byte-exact tie), no transcription of its iterator.
 -/
 namespace Prom.HistChunk
 open Prom.Bits Prom.Varbit Prom.Hist
@@ -193,9 +193,70 @@ def encodeBits (c : Chunk) : Bits :=
 def hdrByte : Hdr → Nat
   | .unknown => 0 | .notReset => 64 | .reset => 128 | .gauge => 192
 
-/-- `HistogramChunk.Bytes()` -/
+/-! ### float histogram chunks (`float_histogram.go`, encoder only): every value is an `xorValue` with its own
+    leading/trailing window; the first sample is written verbatim -/
+
+/-- `xorValue` -/
+structure XV where
+  value : Nat
+  leading : Nat
+  trailing : Nat
+deriving DecidableEq, Repr, Inhabited
+
+/-- `writeXorValue` -/
+def xvWrite (old : XV) (v : Nat) : Bits × XV :=
+  let x := Prom.ChunkXor.xorWrite (v ^^^ old.value) old.leading old.trailing
+  (x.1, ⟨v, x.2.1, x.2.2⟩)
+
+structure FSt where
+  t : Int
+  tDelta : Int
+  cnt : XV
+  zcnt : XV
+  sum : XV
+  pB : List XV
+  nB : List XV
+deriving Repr, Inhabited
+
+def putRaw (l : List Int) : Bits := l.flatMap fun b => natToBits b.toNat 64
+
+def encFirstF (s : Stored) : Bits × FSt :=
+  (putVarbitInt s.t ++ natToBits s.count 64 ++ natToBits s.zcount 64 ++ natToBits s.sum 64 ++ putRaw s.pB ++ putRaw s.nB,
+   { t := s.t, tDelta := 0, cnt := ⟨s.count, 255, 0⟩, zcnt := ⟨s.zcount, 255, 0⟩, sum := ⟨s.sum, 255, 0⟩,
+     pB := s.pB.map fun b => ⟨b.toNat, 255, 0⟩, nB := s.nB.map fun b => ⟨b.toNat, 255, 0⟩ })
+
+/-- the buckets present in the sample, against the appender's slice (a prefix is updated) -/
+def xvGo : List Int → List XV → Bits × List XV
+  | b :: bs, x :: xs =>
+    let w := xvWrite x b.toNat
+    let r := xvGo bs xs
+    (w.1 ++ r.1, w.2 :: r.2)
+  | _, xs => ([], xs)
+
+def encNextF (a : FSt) (s : Stored) : Bits × FSt :=
+  let tDelta := s.t - a.t
+  let c := xvWrite a.cnt s.count
+  let z := xvWrite a.zcnt s.zcount
+  let sm := xvWrite a.sum s.sum
+  let p := xvGo s.pB a.pB
+  let n := xvGo s.nB a.nB
+  (putVarbitInt (tDelta - a.tDelta) ++ c.1 ++ z.1 ++ sm.1 ++ p.1 ++ n.1,
+   { t := s.t, tDelta := tDelta, cnt := c.2, zcnt := z.2, sum := sm.2, pB := p.2, nB := n.2 })
+
+def encRestF (a : FSt) : List Stored → Bits
+  | [] => []
+  | s :: rest => let r := encNextF a s; r.1 ++ encRestF r.2 rest
+
+def encodeBitsF (c : Chunk) : Bits :=
+  match c.rev.reverse with
+  | [] => []
+  | s :: rest =>
+    let f := encFirstF s
+    putLayout (layoutOf c) ++ f.1 ++ encRestF f.2 rest
+
+/-- `HistogramChunk.Bytes()` / `FloatHistogramChunk.Bytes()` -/
 def encodeChunk (c : Chunk) : List Nat :=
-  (c.num / 256 % 256) :: (c.num % 256) :: hdrByte c.hdr :: toBytes (encodeBits c)
+  (c.num / 256 % 256) :: (c.num % 256) :: hdrByte c.hdr :: toBytes (if c.float then encodeBitsF c else encodeBits c)
 
 /-! ## reading (histogramIterator) -/
 
